@@ -1,7 +1,124 @@
-import PonyVerif.Model.Rel
+/-
+  C12 — both ends of every relationship stay consistent.
+  Property theorems only.  Model: PonyVerif/Model/Rel.lean (mirrors pony/orm/core.py: Attribute.__set__, update_reverse,
+  Set.__set__, Set.reverse_add/reverse_remove, SetInstance.add/remove/clear, Entity.__init__, Entity._delete_ with cascade,
+  and the undo lists of failing calls).  The invariant is proved for ARBITRARY schemas (any list of relationship
+  declarations: one-to-one, many-to-one, many-to-many, symmetric, self relations, any required/cascade flags), arbitrary
+  stores satisfying the invariant and arbitrary calls, successful or failing; hence for every reachable state.
+-/
+import PonyVerif.Lemmas.RelStep
 namespace PonyVerif.Props.C12
 open PonyVerif.Model.Rel
 
-theorem C12_placeholder : (Store.empty).n = 0 := rfl
+/-! ### the property -/
+
+/-- the empty session satisfies the invariant -/
+theorem C12_init (sch : Schema) : Inv sch Store.empty :=
+  ⟨⟨fun _ _ _ h => absurd h (Nat.not_lt_zero _), fun _ _ _ h => absurd h (Nat.not_lt_zero _)⟩,
+   fun _ _ _ h => absurd h (Nat.not_lt_zero _)⟩
+
+/-- EVERY user call — assignment of a reference (incl. None), assignment of a collection, add, remove, clear, constructor
+    call, delete (with cascade) — whether it succeeds or fails (and is undone), on ANY schema and ANY store, keeps the
+    invariant "ids in range ∧ for every live p: p holds q under b → q holds p under b.reverse". -/
+theorem C12_step (sch : Schema) (s : Store) (op : Op) (hI : Inv sch s) : Inv sch (step sch s op) := by
+  unfold step stepO
+  cases hr : run1 sch op { store := s } with
+  | ok st => exact run1_ok_inv hr hI
+  | err e st => exact inv_of_eqBelow hI (run1_err_restores hr)
+
+/-- every state reachable from the empty session by ANY sequence of calls satisfies the invariant -/
+theorem C12_reachable (sch : Schema) (ops : List Op) : Inv sch (run sch Store.empty ops) := by
+  suffices h : ∀ s, Inv sch s → Inv sch (run sch s ops) from h _ (C12_init sch)
+  induction ops with
+  | nil => intro s hs; exact hs
+  | cons op ops ih => intro s hs; exact ih _ (C12_step sch s op hs)
+
+/-- a failing call changes nothing: the store after the undo has the same rows for all objects (relationship part of C13) -/
+theorem C12_failed_call_restores (sch : Schema) (s : Store) (op : Op) (h : (stepO sch s op).err ≠ none) :
+    EqBelow s.n (step sch s op) s := by
+  unfold step stepO at *
+  cases hr : run1 sch op { store := s } with
+  | ok st => rw [hr] at h; exact absurd rfl h
+  | err e st => exact run1_err_restores hr
+
+/-- the property as stated, for two live objects of a reachable state: `q` is held by `p` under `b`
+    exactly when `p` is held by `q` under the reverse attribute -/
+theorem C12_both_ends (sch : Schema) (ops : List Op) (p q : ObjId) (b : Attr)
+    (hp : p < (run sch Store.empty ops).n) (hq : q < (run sch Store.empty ops).n)
+    (hpa : (run sch Store.empty ops).alive p = true) (hqa : (run sch Store.empty ops).alive q = true) :
+    hasB sch (run sch Store.empty ops) p b q = true ↔ hasB sch (run sch Store.empty ops) q (sch.rev b) p = true := by
+  have hI := C12_reachable sch ops
+  constructor
+  · exact hI.agree p b q hp hpa
+  · intro h
+    have := hI.agree q (sch.rev b) p hq hqa h
+    rwa [Schema.rev_rev] at this
+
+/-- one-to-many reading: `b ∈ a.coll ↔ b.ref = a` (`c` a collection attribute whose reverse is a reference attribute) -/
+theorem C12_one_to_many (sch : Schema) (ops : List Op) (a b : ObjId) (c : Attr) (cd rd : Side)
+    (hc : sch.side c = some cd) (hcd : cd.isColl = true) (hr : sch.side (sch.rev c) = some rd) (hrd : rd.isColl = false)
+    (ha : a < (run sch Store.empty ops).n) (hb : b < (run sch Store.empty ops).n)
+    (haa : (run sch Store.empty ops).alive a = true) (hba : (run sch Store.empty ops).alive b = true) :
+    (run sch Store.empty ops).mem a c b = true ↔ (run sch Store.empty ops).ref b (sch.rev c) = some a := by
+  have := C12_both_ends sch ops a b c ha hb haa hba
+  rw [hasB_coll_eq hc hcd, hasB_ref_eq hr hrd] at this
+  simpa using this
+
+/-- one-to-one links are mutual -/
+theorem C12_one_to_one (sch : Schema) (ops : List Op) (p q : ObjId) (b : Attr) (d rd : Side)
+    (hb : sch.side b = some d) (hd : d.isColl = false) (hr : sch.side (sch.rev b) = some rd) (hrd : rd.isColl = false)
+    (hp : p < (run sch Store.empty ops).n) (hq : q < (run sch Store.empty ops).n)
+    (hpa : (run sch Store.empty ops).alive p = true) (hqa : (run sch Store.empty ops).alive q = true) :
+    (run sch Store.empty ops).ref p b = some q ↔ (run sch Store.empty ops).ref q (sch.rev b) = some p := by
+  have := C12_both_ends sch ops p q b hp hq hpa hqa
+  rw [hasB_ref_eq hb hd, hasB_ref_eq hr hrd] at this
+  simpa using this
+
+/-- many-to-many and symmetric relations are symmetric (for a symmetric attribute `sch.rev c = c`) -/
+theorem C12_many_to_many (sch : Schema) (ops : List Op) (p q : ObjId) (c : Attr) (cd rd : Side)
+    (hc : sch.side c = some cd) (hcd : cd.isColl = true) (hr : sch.side (sch.rev c) = some rd) (hrd : rd.isColl = true)
+    (hp : p < (run sch Store.empty ops).n) (hq : q < (run sch Store.empty ops).n)
+    (hpa : (run sch Store.empty ops).alive p = true) (hqa : (run sch Store.empty ops).alive q = true) :
+    (run sch Store.empty ops).mem p c q = true ↔ (run sch Store.empty ops).mem q (sch.rev c) p = true := by
+  have := C12_both_ends sch ops p q c hp hq hpa hqa
+  rwa [hasB_coll_eq hc hcd, hasB_coll_eq hr hrd] at this
+
+
+/-! ### the statements are not vacuous -/
+
+/-- `A.bs = Set(B)` (cascade, because `B.a` is Required) ↔ `B.a = Required(A)`;  `A.cs = Set(C)` ↔ `C.as = Set(A)`;
+    `A.x = Optional(B, cascade_delete=True)` ↔ `B.y = Optional(A)`;  `A.spouse = Optional(A, reverse='spouse')` -/
+def exSchema : Schema :=
+  [ { a := ⟨0, true, false, true⟩, b := ⟨1, false, true, false⟩, sym := false },
+    { a := ⟨0, true, false, false⟩, b := ⟨2, true, false, false⟩, sym := false },
+    { a := ⟨0, false, false, true⟩, b := ⟨1, false, false, false⟩, sym := false },
+    { a := ⟨0, false, false, false⟩, b := ⟨0, false, false, false⟩, sym := true } ]
+
+/-- `a = A(); b = B(a=a); c = C(as=[a])`: non-empty links on both ends, found by the invariant -/
+def exOps : List Op :=
+  [ .create 0 [], .create 1 [(⟨0, true⟩, .ref (some 0))], .create 2 [(⟨1, true⟩, .coll [0])] ]
+
+example : (run exSchema Store.empty exOps).mem 0 ⟨0, false⟩ 1 = true ∧ (run exSchema Store.empty exOps).ref 1 ⟨0, true⟩ = some 0 ∧
+    (run exSchema Store.empty exOps).mem 0 ⟨1, false⟩ 2 = true ∧ (run exSchema Store.empty exOps).mem 2 ⟨1, true⟩ 0 = true := by
+  decide
+
+/-- a FAILING call: `b.a = None` on a Required attribute raises ValueError and changes nothing -/
+example : (stepO exSchema (run exSchema Store.empty exOps) (.setRef 1 ⟨0, true⟩ none)).err = some .valueError ∧
+    (step exSchema (run exSchema Store.empty exOps) (.setRef 1 ⟨0, true⟩ none)).ref 1 ⟨0, true⟩ = some 0 := by
+  decide
+
+/-- cascade: `a.bs.remove(b)` deletes `b`; `a.delete()` then also empties the many-to-many link on the other side -/
+example : (run exSchema Store.empty (exOps ++ [.remove 0 ⟨0, false⟩ [1]])).alive 1 = false ∧
+    (run exSchema Store.empty (exOps ++ [.delete 0])).mem 2 ⟨1, true⟩ 0 = false ∧
+    (run exSchema Store.empty (exOps ++ [.delete 0])).alive 1 = false := by
+  decide
+
+/-- regression inputs of the three defects repaired in /repo (the model mirrors the repaired code):
+    one-to-one cascade reassign `a.x = b1; a.x = b2` and the symmetric self link `p.spouse = p; p.spouse = q` -/
+example : (run exSchema Store.empty [.create 0 [], .create 1 [(⟨0, true⟩, .ref (some 0))], .create 1 [(⟨0, true⟩, .ref (some 0))],
+      .setRef 0 ⟨2, false⟩ (some 1), .setRef 0 ⟨2, false⟩ (some 2)]).ref 0 ⟨2, false⟩ = some 2 ∧
+    (run exSchema Store.empty [.create 0 [], .create 0 [], .setRef 0 ⟨3, false⟩ (some 0), .setRef 0 ⟨3, false⟩ (some 1)]).ref 0 ⟨3, false⟩ = some 1 ∧
+    (run exSchema Store.empty [.create 0 [], .create 0 [], .setRef 0 ⟨3, false⟩ (some 0), .setRef 0 ⟨3, false⟩ (some 1)]).ref 1 ⟨3, false⟩ = some 0 := by
+  decide
 
 end PonyVerif.Props.C12
